@@ -228,7 +228,13 @@ pub(super) fn comma_flat_separator(
     token: Option<&LuaSyntaxToken>,
 ) -> Vec<DocIR> {
     let mut docs = comma_token_docs(token);
-    docs.extend(token_right_spacing_docs(plan, token));
+    if token.is_some() {
+        docs.extend(token_right_spacing_docs(plan, token));
+    } else {
+        // The list has no `,` in the source (e.g. a table that only uses `;`), so there is no
+        // token to look spacing up for: a synthesized comma is followed by one space.
+        docs.push(ir::space());
+    }
     docs
 }
 
